@@ -67,7 +67,7 @@ class C13(PropBase):
     coq_dirs = ["Base", "C08", "C03", "C12", "C13", "Gen"]
     translators = ["c13_sites.py"]
     bins = ["c13"]
-    impl_timeout = 900
+    impl_timeout = 2400
     impl_mem_gb = 4
     rule = ("direct-oracle cases: one (dump, symbols[, evil-json]) pair processed runs(6..8) x 3 executors (poll-to-completion, seeded "
             "random release of parked lookups, multi-thread tokio) with a fresh Symbolizer and per-run rotated supplier delay scripts; "
@@ -403,6 +403,12 @@ class C13(PropBase):
             j = rng.below(i + 1)
             order[i], order[j] = order[j], order[i]
         return [cases[i] for i in order], dist, False
+
+    def impl_cmd(self, exe, profile):
+        # the per-case wall-clock watchdog of vharness (SystemTime based) is only a backstop here: the harness ends a stuck
+        # schedule itself (POLL_CAP for executors A / B -> "HUNG" panic, a 60 s tokio timeout for executor C), and on a
+        # heavily loaded machine (or across a clock step) 30 s of wall time say nothing about one case
+        return ["env", "VHARNESS_CASE_TIMEOUT=300", exe]
 
     # ---------------------------------------------------------------- judging
     def canon_model(self, case, ans):
